@@ -15,7 +15,7 @@ CLAIMS = {
         text='Deductive proof (Verus) of the real text of the operator DISPATCH layer and the map-free leaves: Add for Function and Mul for Function (all 16 operand-kind pairs: result holds a kind able to carry every term, ids within the operands\' ids, value = sum / product of the operand polynomials minus an explicit epsilon-drop remainder defined per arm), '
              'Add<f64>/Mul<f64> for Linear, Add<f64>/Mul<f64> for Quadratic, Mul<f64> for Polynomial (exact, remainder 0, including the `* 0` short cut), Zero::zero/is_zero, the From conversions into Function, '
              'and the MACRO layer of macros.rs at the Function level (every instance of impl_add_from / impl_add_inverse / impl_mul_from / impl_mul_inverse / impl_sub_by_neg_add in v1_ext/function.rs and impl_neg_by_mul for Function, Linear, Quadratic, Polynomial: each expanded mechanically from the macro definition and proved to compute the sum / product / exact negation / difference of its operands through the dispatch contracts).',
-        note=A1 + 'PARTIAL: the BTreeMap-merge leaves (Linear+Linear, Linear*Linear, Quadratic/Polynomial sums and products, Linear::new) are ASSUMED contracts with an uninterpreted epsilon-drop remainder; the macro instances of quadratic.rs / polynomial.rs between typed operands, the Parameter and DecisionVariable operand families and the term iterators are covered only by the bounded stand-in.',
+        note=A1 + 'Linear + Linear and Linear::new are PROVED from the real text through the BTreeMap entry API (std contracts of entry/or_default/remove/into_iter, prophecy-style): the result is exactly the specified merge (accumulate equal ids, drop an entry when |sum| <= EPSILON), its remainder is defined as the difference to that merge. PARTIAL: the other BTreeMap-merge leaves (Linear*Linear, Quadratic/Polynomial sums and products) are ASSUMED contracts with an uninterpreted epsilon-drop remainder; the macro instances of quadratic.rs / polynomial.rs between typed operands, the Parameter and DecisionVariable operand families and the term iterators are covered only by the bounded stand-in.',
         technique='contract-based deductive verification (Verus) of mechanically extracted Rust functions; value contracts with explicit remainders; contracts generated from a table of operand kinds',
         ref='DESIGN 6 C02'),
     'C16': dict(
@@ -65,7 +65,7 @@ CLAIMS = {
         text='Deductive proof (Verus) of the real text of Instance::log_encode: Ok exactly for a known id (first match) of integer kind with a set, FINITE bound that contains an integer; an error leaves the instance unchanged; '
              'a single-integer range returns the constant and adds nothing; otherwise n >= 1 fresh binaries (ids max+1.., kind binary, bound [0,1], subscripts [id,i], name tag) with 2^(n-1) <= U < 2^n, constant ceil(l) and coefficients 2^i / U-2^(n-1)+1. '
              'Ghost lemma (all widths, no bound): the values over all bit assignments are exactly the integers ceil(l)..floor(u) (complete-sequence argument with explicit witness).',
-        note=A1 + 'A2: x.log2().ceil() as usize is the exact ceil(log2 x) (saturating for +inf). ASSUMED callee contracts: Linear::new keeps strictly-increasing non-dropped terms unchanged; defined_ids = set of ids. Precondition (observation): ids < 2^64-65536. Defect D1 (infinite bound => OOM loop) was found by this check and repaired in /repo (fix: a11f38c).',
+        note=A1 + 'A2: x.log2().ceil() as usize is the exact ceil(log2 x) (saturating for +inf). Linear::new is verified in the same run (its result is the specified BTreeMap merge of the pairs; for strictly increasing ids and non-dropped coefficients that merge is the input: lemma_acc_incr / lemma_sorted_listing_unique). ASSUMED callee contracts: defined_ids = set of ids; std contracts of the BTreeMap entry API (prophecy-style) and of into_iter (ascending order). Precondition (observation): ids < 2^64-65536. Defect D1 (infinite bound => OOM loop) was found by this check and repaired in /repo (fix: a11f38c).',
         technique='contract-based deductive verification (Verus) of mechanically extracted Rust functions + inductive ghost lemmas (complete-sequence criterion over reals with an integrality predicate)',
         ref='DESIGN 6 C12'),
     'C15': dict(
